@@ -28,6 +28,8 @@ func main() {
 		filterdiff(w, *seed, *tier, stats)
 	case "cachediff":
 		cachediff(w, *seed, *tier, stats)
+	case "lin":
+		lindiff(w, *seed, *tier, stats)
 	default:
 		fmt.Fprintln(os.Stderr, "unknown engine")
 		os.Exit(2)
